@@ -262,6 +262,12 @@ func checkProgram(c progCase) harness.Outcome {
 		skipCompletion = true
 		out.Excluded = append(out.Excluded, "C01-ABRUPT-COMPLETION-VALUE")
 	}
+	if m.Flags["abrupt-completion-consumed-in-eval"] > 0 && harness.Known("C01-ABRUPT-COMPLETION-VALUE") {
+		// the result of an eval() call is a completion value that otto gets wrong for this reason: the
+		// program's ordinary values depend on it, so only the routes are compared with each other
+		out.Excluded = append(out.Excluded, "C01-ABRUPT-COMPLETION-VALUE(eval)")
+		modelOK = false
+	}
 	for flag, id := range excludeByFlag {
 		if m.Flags[flag] > 0 && harness.Known(id) {
 			out.Excluded = append(out.Excluded, id)
